@@ -71,12 +71,12 @@ func retMayBeNilError(ret *ssa.Return) bool {
 	}
 
 	if mi, ok := v.(*ssa.MakeInterface); ok {
-		if c, ok := mi.X.(*ssa.Call); ok && strings.HasSuffix(callID(c.Common()), ".compileError") {
+		if c, ok := mi.X.(*ssa.Call); ok && (strings.HasSuffix(callID(c.Common()), ".compileError") || strings.HasSuffix(callID(c.Common()), ".runtimeError")) {
 			return false
 		}
 	}
 
-	if c, ok := v.(*ssa.Call); ok && strings.HasSuffix(callID(c.Common()), ".compileError") {
+	if c, ok := v.(*ssa.Call); ok && (strings.HasSuffix(callID(c.Common()), ".compileError") || strings.HasSuffix(callID(c.Common()), ".runtimeError")) {
 		return false
 	}
 
@@ -182,51 +182,121 @@ func runC10(w *World, r *Report) {
 		// restores in pop: context field <- value derived from frame field
 		restored := map[string]map[string]bool{} // ctx field -> frame fields it is computed from
 
-		allInstrs(pop, func(in ssa.Instruction) {
-			st, ok := in.(*ssa.Store)
-			if !ok {
-				return
+		// the pop may be a thin wrapper: follow calls to methods of the same package (one level)
+		popBodies := []*ssa.Function{pop}
+
+		allCalls(pop, func(ci ssa.CallInstruction) {
+			if cf := calleeFunction(ci.Common()); cf != nil && cf.Pkg == pop.Pkg && cf.Blocks != nil && cf != pop {
+				popBodies = append(popBodies, cf)
 			}
+		})
 
-			fa, ok := st.Addr.(*ssa.FieldAddr)
-			if !ok || !isCtx(fa.X.Type()) {
-				return
-			}
+		// a restore that a flag can switch off is not a restore: ctx field -> reason
+		conditional := map[string]string{}
 
-			cf := fieldName(fa.X.Type(), fa.Field)
-
-			var visit func(v ssa.Value, depth int)
-
-			visit = func(v ssa.Value, depth int) {
-				if depth > 6 || v == nil {
+		restoreVisitor := func(body *ssa.Function) func(in ssa.Instruction) {
+			return func(in ssa.Instruction) {
+				st, ok := in.(*ssa.Store)
+				if !ok {
 					return
 				}
 
-				switch x := v.(type) {
-				case *ssa.UnOp:
-					if f2, ok := x.X.(*ssa.FieldAddr); ok && isFrame(f2.X.Type()) {
-						if restored[cf] == nil {
-							restored[cf] = map[string]bool{}
+				fa, ok := st.Addr.(*ssa.FieldAddr)
+				if !ok || !isCtx(fa.X.Type()) {
+					return
+				}
+
+				cf := fieldName(fa.X.Type(), fa.Field)
+
+				// every path from the function's entry to a return passes this store, once the
+				// branches that test the very data being restored (len(c.x) > frame.y) and the
+				// failure exits (error returns) are set aside
+				if st.Block() != nil {
+					isReturnDone := func(i ssa.Instruction) bool {
+						ret, isRet := i.(*ssa.Return)
+
+						// a return that certainly reports an error is a failure exit, not a completed pop
+						return isRet && retMayBeNilError(ret)
+					}
+
+					isStore := func(i ssa.Instruction) bool { return i == ssa.Instruction(st) }
+
+					flagEdge := func(f Fact) bool {
+						if f.Kind != "true" && f.Kind != "false" {
+							return false
 						}
 
-						restored[cf][fieldName(f2.X.Type(), f2.Field)] = true
-					}
-				case *ssa.Slice:
-					visit(x.Low, depth+1)
-					visit(x.High, depth+1)
-				case *ssa.Phi:
-					for _, e := range x.Edges {
-						visit(e, depth+1)
-					}
-				case *ssa.Convert:
-					visit(x.X, depth+1)
-				case *ssa.ChangeType:
-					visit(x.X, depth+1)
-				}
-			}
+						_, isParam := resolveLocal(f.V).(*ssa.Parameter)
 
-			visit(st.Val, 0)
-		})
+						return isParam
+					}
+
+					base := func(f Fact) bool {
+						switch f.Kind {
+						case "cmp":
+							about := func(v ssa.Value) bool {
+								return derivesFrom(v, func(x ssa.Value) bool {
+									f2, ok := x.(*ssa.FieldAddr)
+
+									return ok && isCtx(f2.X.Type()) && fieldName(f2.X.Type(), f2.Field) == cf
+								}, func(id string) bool { return id == "len" })
+							}
+
+							return about(f.X) || about(f.Y)
+						case "nonnil":
+							return isErrorType(f.V.Type()) // the path of a failed step
+						}
+
+						return false
+					}
+
+					// a completed pop that skips the store exists with the flag branches, and
+					// disappears when they are removed: the flag is what switches the restore off
+					withFlags := pathFromEntryAvoiding(body, cutEdges(body, base), isStore, isReturnDone)
+					withoutFlags := pathFromEntryAvoiding(body, cutEdges(body, func(f Fact) bool { return base(f) || flagEdge(f) }), isStore, isReturnDone)
+
+					if withFlags != nil && withoutFlags == nil {
+						conditional[cf] = w.pos(withFlags.Pos())
+					}
+				}
+
+				var visit func(v ssa.Value, depth int)
+
+				visit = func(v ssa.Value, depth int) {
+					if depth > 6 || v == nil {
+						return
+					}
+
+					switch x := v.(type) {
+					case *ssa.UnOp:
+						if f2, ok := x.X.(*ssa.FieldAddr); ok && isFrame(f2.X.Type()) {
+							if restored[cf] == nil {
+								restored[cf] = map[string]bool{}
+							}
+
+							restored[cf][fieldName(f2.X.Type(), f2.Field)] = true
+						}
+					case *ssa.Slice:
+						visit(x.Low, depth+1)
+						visit(x.High, depth+1)
+					case *ssa.Phi:
+						for _, e := range x.Edges {
+							visit(e, depth+1)
+						}
+					case *ssa.Convert:
+						visit(x.X, depth+1)
+					case *ssa.ChangeType:
+						visit(x.X, depth+1)
+					}
+				}
+
+				visit(st.Val, 0)
+			}
+		}
+
+		for _, body := range popBodies {
+			allInstrs(body, restoreVisitor(body))
+		}
 
 		if len(saved) == 0 {
 			r.Anchor("R-C10-1", "CallFrame fields saved by callFramePushWithTable")
@@ -236,7 +306,9 @@ func runC10(w *World, r *Report) {
 			cf := saved[ff]
 			key := "bytecode.Context.callFramePop|restores " + cf + " from frame." + ff
 
-			if restored[cf][ff] {
+			if restored[cf][ff] && conditional[cf] != "" {
+				r.Violate("R-C10-1", key, pos[ff], "Context."+cf+" is put back from the frame only when a flag parameter says so: a return can complete (at "+conditional[cf]+") without it, and the caller continues with the callee's "+cf)
+			} else if restored[cf][ff] {
 				r.Discharge("R-C10-1", key, pos[ff], "saved at push, assigned back at pop")
 			} else {
 				r.Violate("R-C10-1", key, pos[ff], "Context."+cf+" is saved in the call frame ("+ff+") when a function is called but not put back when it returns: the caller continues with the callee's "+cf)
